@@ -36,7 +36,7 @@ OfferIn == /\ R.e = "offerIn" /\ maybeNeg' = IF R.applied THEN maybeNeg + 1 ELSE
            /\ UNCHANGED <<idle, ka, reqs, held, closed, idleSince>>
 InFail == /\ R.e = "hListenUpgradeError" /\ maybeNeg' = IF maybeNeg > 0 THEN maybeNeg - 1 ELSE 0
           /\ UNCHANGED <<idle, ka, reqs, held, closed, idleSince>>
-Skip == R.e \in {"offerOut", "negotiate", "hRequestOut", "slept"} /\ UNCHANGED <<idle, ka, reqs, held, closed, idleSince, maybeNeg>>
+Skip == R.e \in {"offerOut", "negotiate", "hRequestOut", "slept", "closeWrite"} /\ UNCHANGED <<idle, ka, reqs, held, closed, idleSince, maybeNeg>>
 Next == l <= NRec /\ l' = l + 1 /\ (Reset \/ Ka \/ ReqOut \/ Stream \/ Release \/ UpgradeErr \/ Closed \/ Quiescent \/ OfferIn \/ InFail \/ Skip)
 Progress == Mark(l)
 ====
